@@ -7,14 +7,20 @@ var configs = map[string]cfg{}
 func init() {
 	configs["C16"] = cfg{
 		Level: "exploration", QuickShards: 8, ThorShards: 16, QuickTO: 5 * time.Minute, ThorTO: 30 * time.Minute,
-		Rule: "rapid-generated operation sequences (1..40 ops over the public BitMatrix / BitArray API, in-range arguments, valid and invalid rectangles/ranges/sizes) applied to the library object and to a naive [][]bool / []bool model, all queries compared after every step; every (w,h) in 1..130 x 1..8 and every size 0..200 (and NewEmptyBitArray) gets a fixed quota of sequences, plus a free search with word-multiple widths over-weighted. Non-trivial = the sequence contains a rotation / reversal / region or range fill / flip-all / xor / set-row / append executed after a state that had both set and unset bits; distinct by hash of the whole case.",
-		Explain: "model-based stateful PBT; dimension space enumerated completely, contents and sequences sampled",
+		Rule:        "rapid-generated operation sequences (1..40 ops over the public BitMatrix / BitArray API, in-range arguments, valid and invalid rectangles/ranges/sizes) applied to the library object and to a naive [][]bool / []bool model, all queries compared after every step; every (w,h) in 1..130 x 1..8 and every size 0..200 (and NewEmptyBitArray) gets a fixed quota of sequences, plus a free search with word-multiple widths over-weighted. Non-trivial = the sequence contains a rotation / reversal / region or range fill / flip-all / xor / set-row / append executed after a state that had both set and unset bits; distinct by hash of the whole case.",
+		Explain:     "model-based stateful PBT; dimension space enumerated completely, contents and sequences sampled",
 		Assumptions: []string{"unchecked accessors (BitArray Get/Set/Flip, BitMatrix Set/Unset/Flip) only receive in-range indices", "SetBulk values never set bits at or beyond the array size", "rows given to SetRow have exactly the matrix width"},
 	}
 	configs["C20"] = cfg{
 		Level: "exploration", QuickShards: 8, ThorShards: 16, QuickTO: 5 * time.Minute, ThorTO: 30 * time.Minute,
-		Rule: "RecordPattern / RecordPatternInReverse: rapid rows of length 0..300 (alternating, short runs, long runs), every kind of start offset and 1..10 counters, compared with a run-length model (non-trivial = the row holds more runs than counters, so the counters are filled); plus all (start, n) on fixed small rows. PatternMatchVariance: every row of every pattern table the library matches with it (hook-exported UPC/EAN, Code 128, ITF tables and RSS-14 finder patterns) x all counter vectors with entries 0..6 (exhaustive in the thorough tier, strided above 20000 vectors per row in quick) and rapid vectors with entries 0..40 and generated patterns, compared with the contract evaluated in exact rationals (tolerance 1e-9), +Inf classes included, scale invariance k=2..8 (1e-12). Non-trivial = total width >= pattern width and not an exact multiple (finite inexact score or +Inf by individual variance); distinct by hash of (counters, pattern, limit).",
-		Explain: "table rows enumerated completely; counter vectors with entries <= 6 enumerated completely in the thorough tier",
+		Rule:        "RecordPattern / RecordPatternInReverse: rapid rows of length 0..300 (alternating, short runs, long runs), every kind of start offset and 1..10 counters, compared with a run-length model (non-trivial = the row holds more runs than counters, so the counters are filled); plus all (start, n) on fixed small rows. PatternMatchVariance: every row of every pattern table the library matches with it (hook-exported UPC/EAN, Code 128, ITF tables and RSS-14 finder patterns) x all counter vectors with entries 0..6 (exhaustive in the thorough tier, strided above 20000 vectors per row in quick) and rapid vectors with entries 0..40 and generated patterns, compared with the contract evaluated in exact rationals (tolerance 1e-9), +Inf classes included, scale invariance k=2..8 (1e-12). Non-trivial = total width >= pattern width and not an exact multiple (finite inexact score or +Inf by individual variance); distinct by hash of (counters, pattern, limit).",
+		Explain:     "table rows enumerated completely; counter vectors with entries <= 6 enumerated completely in the thorough tier",
 		Assumptions: []string{"start offsets are within 0..len (forward) and 0..len-1 (reverse), as every caller passes", "comparisons within 1e-9 relative of the individual-variance boundary are skipped (floating point may legitimately fall either way)", "pattern tables are those exported by the verif-tagged hook oned.VerifPatternTables / rss.VerifFinderPatterns"},
+	}
+	configs["C04"] = cfg{
+		Level: "exploration", QuickShards: 8, ThorShards: 16, QuickTO: 5 * time.Minute, ThorTO: 30 * time.Minute,
+		Rule:        "gf_all_pairs: every (a,b) of each of the six fields (16^2 + 64^2 + 2*256^2 + 1024^2 + 4096^2 products) against shift-and-xor multiplication modulo the primitive polynomial, plus inverse / exp / log laws for every element (non-trivial = both operands outside {0,1}; distinct by enumeration). rs_random: rapid (field, k, r, data, error positions incl. first/last/data-parity border, magnitudes) with |E| <= floor(r/2): systematic encode, zero syndromes computed by the reference, parity equal to an independent LFSR encoder, clean pass-through, exact correction (non-trivial = at least one corrupted symbol; distinct by case hash). rs_short_all_positions: all single- and double-error position sets for every (n,r) with n <= 10 (quick) / 15 (thorough), magnitudes exhaustive for single errors in GF(16), sampled elsewhere.",
+		Explain:     "GF arithmetic enumerated completely; RS code parameters and error patterns sampled, short codes enumerated over all error position sets",
+		Assumptions: []string{"nothing is asserted for more than floor(r/2) errors", "reference arithmetic: internal/gfref (no tables)"},
 	}
 }
